@@ -139,6 +139,14 @@ def zero_crossing_rules(chk):
         chk.ob("R-ZC-STRICT", cc + "{index 0}", "index 0 is prepended exactly when the first index is not 0", len(ins0) == 1 and len(guard) == 1,
                derived="%d prepend(s) of 0, %d `[0] != 0` guard" % (len(ins0), len(guard)), loc=ins0[0].loc if ins0 else fi.loc(),
                inconclusive=not ins0 and not guard)
+        # "the first index is not 0" is a statement about the smallest index: it is tested on the SORTED array (on the unsorted concatenation the
+        # first entry is the first exact zero, and a series that starts negative gets index 0 twice)
+        evs_ = list(r.I.events)
+        pos_ = {id(e): k for k, e in enumerate(evs_)}
+        if len(srt) == 1 and len(guard) == 1 and id(srt[0]) in pos_ and id(guard[0]) in pos_:
+            chk.ob("R-ZC-STRICT", cc + "{index 0: order}", "the test `indices[0] != 0` reads the sorted array (the sort comes first)",
+                   pos_[id(srt[0])] < pos_[id(guard[0])], derived="sort %s the test" % ("precedes" if pos_[id(srt[0])] < pos_[id(guard[0])] else "FOLLOWS"),
+                   loc=guard[0].loc, stmt=guard[0].stmt)
         expect(chk, "R-ZC-STRICT", cc + ".result", r.ret, dtype="int", sign="nonneg", kind=K_ARRAY, tags_has=["where-index"], loc=fi.loc())
         if not kaz:
             # no zero and no sign change at all: the result is [0] (index 0 is always reported), decided by `len(indices) == 0`
